@@ -9,6 +9,26 @@ use std::sync::Mutex;
 
 use serde_json::{json, Value};
 
+// per-property extensions: each file owns its commands (pub fn dispatch(cmd, req) -> Option<Value>)
+mod c01;
+mod c02;
+mod c03;
+mod c04;
+mod c05;
+mod c06;
+mod c07;
+mod c08;
+mod c09;
+mod c10;
+mod c11;
+mod c12;
+mod c13;
+mod c14;
+mod c15;
+mod c16;
+mod c17;
+mod c18;
+
 static LAST_PANIC: Mutex<Option<(String, String)>> = Mutex::new(None);
 
 fn install_hook() {
@@ -30,7 +50,7 @@ fn install_hook() {
     }));
 }
 
-fn guarded<F: FnOnce() -> Value>(f: F) -> Value {
+pub(crate) fn guarded<F: FnOnce() -> Value>(f: F) -> Value {
     match catch_unwind(AssertUnwindSafe(f)) {
         Ok(v) => v,
         Err(_) => {
@@ -41,7 +61,7 @@ fn guarded<F: FnOnce() -> Value>(f: F) -> Value {
     }
 }
 
-fn errs(e: prqlc::ErrorMessages) -> Value {
+pub(crate) fn errs(e: prqlc::ErrorMessages) -> Value {
     let v: Vec<Value> = e
         .inner
         .iter()
@@ -60,11 +80,11 @@ fn errs(e: prqlc::ErrorMessages) -> Value {
     json!({ "err": v })
 }
 
-fn s<'a>(req: &'a Value, k: &str) -> &'a str {
+pub(crate) fn s<'a>(req: &'a Value, k: &str) -> &'a str {
     req.get(k).and_then(|v| v.as_str()).unwrap_or("")
 }
 
-fn options(req: &Value) -> Result<prqlc::Options, Value> {
+pub(crate) fn options(req: &Value) -> Result<prqlc::Options, Value> {
     let mut o = prqlc::Options::default()
         .with_format(req.get("format").and_then(|v| v.as_bool()).unwrap_or(false))
         .with_signature_comment(req.get("sig").and_then(|v| v.as_bool()).unwrap_or(false))
@@ -80,7 +100,7 @@ fn options(req: &Value) -> Result<prqlc::Options, Value> {
     Ok(o)
 }
 
-fn cmd_compile(req: &Value) -> Value {
+pub(crate) fn cmd_compile(req: &Value) -> Value {
     let o = match options(req) {
         Ok(o) => o,
         Err(v) => return v,
@@ -91,14 +111,14 @@ fn cmd_compile(req: &Value) -> Value {
     }
 }
 
-fn cmd_lex(req: &Value) -> Value {
+pub(crate) fn cmd_lex(req: &Value) -> Value {
     match prqlc::prql_to_tokens(s(req, "src")) {
         Ok(t) => json!({"ok": serde_json::to_value(&t).unwrap_or(Value::Null)}),
         Err(e) => errs(e),
     }
 }
 
-fn cmd_pl(req: &Value) -> Value {
+pub(crate) fn cmd_pl(req: &Value) -> Value {
     match prqlc::prql_to_pl(s(req, "src")) {
         Ok(pl) => match prqlc::json::from_pl(&pl) {
             Ok(j) => json!({"ok": serde_json::from_str::<Value>(&j).unwrap_or(Value::Null)}),
@@ -108,7 +128,7 @@ fn cmd_pl(req: &Value) -> Value {
     }
 }
 
-fn cmd_fmt(req: &Value) -> Value {
+pub(crate) fn cmd_fmt(req: &Value) -> Value {
     match prqlc::prql_to_pl(s(req, "src")) {
         Ok(pl) => match prqlc::pl_to_prql(&pl) {
             Ok(t) => json!({ "ok": t }),
@@ -118,7 +138,7 @@ fn cmd_fmt(req: &Value) -> Value {
     }
 }
 
-fn cmd_rq(req: &Value) -> Value {
+pub(crate) fn cmd_rq(req: &Value) -> Value {
     match prqlc::prql_to_pl(s(req, "src")).and_then(prqlc::pl_to_rq) {
         Ok(rq) => match prqlc::json::from_rq(&rq) {
             Ok(j) => json!({"ok": serde_json::from_str::<Value>(&j).unwrap_or(Value::Null)}),
@@ -194,7 +214,7 @@ fn cmd_jsonrt(req: &Value) -> Value {
 }
 
 // All intermediate representations of one compile, through the public debug log.
-fn cmd_log(req: &Value) -> Value {
+pub(crate) fn cmd_log(req: &Value) -> Value {
     let o = match options(req) {
         Ok(o) => o,
         Err(v) => return v,
@@ -240,7 +260,7 @@ fn cmd_log(req: &Value) -> Value {
     }
 }
 
-fn sqlite_val(v: rusqlite::types::ValueRef) -> Value {
+pub(crate) fn sqlite_val(v: rusqlite::types::ValueRef) -> Value {
     use rusqlite::types::ValueRef::*;
     match v {
         Null => Value::Null,
@@ -251,7 +271,7 @@ fn sqlite_val(v: rusqlite::types::ValueRef) -> Value {
     }
 }
 
-fn cmd_exec(req: &Value) -> Value {
+pub(crate) fn cmd_exec(req: &Value) -> Value {
     let conn = match rusqlite::Connection::open_in_memory() {
         Ok(c) => c,
         Err(e) => return json!({"setup_err": e.to_string()}),
@@ -301,7 +321,7 @@ fn cmd_exec(req: &Value) -> Value {
     }
 }
 
-fn sp_dialect(name: &str) -> Box<dyn sqlparser::dialect::Dialect> {
+pub(crate) fn sp_dialect(name: &str) -> Box<dyn sqlparser::dialect::Dialect> {
     use sqlparser::dialect::*;
     match name {
         "ansi" => Box::new(AnsiDialect {}),
@@ -317,7 +337,7 @@ fn sp_dialect(name: &str) -> Box<dyn sqlparser::dialect::Dialect> {
     }
 }
 
-fn cmd_sqlparse(req: &Value) -> Value {
+pub(crate) fn cmd_sqlparse(req: &Value) -> Value {
     let d = sp_dialect(s(req, "dialect"));
     match sqlparser::parser::Parser::parse_sql(&*d, s(req, "sql")) {
         Ok(stmts) => {
@@ -333,7 +353,7 @@ fn cmd_sqlparse(req: &Value) -> Value {
     }
 }
 
-fn cmd_sqltokens(req: &Value) -> Value {
+pub(crate) fn cmd_sqltokens(req: &Value) -> Value {
     let d = sp_dialect(s(req, "dialect"));
     let mut t = sqlparser::tokenizer::Tokenizer::new(&*d, s(req, "sql"));
     match t.tokenize() {
@@ -537,7 +557,28 @@ fn main() {
             "par" => cmd_par(&req),
             "probe" => cmd_probe(&req),
             "linecol" => cmd_linecol(&req),
-            _ => json!({"bad_cmd": c}),
+            _ => {
+                let mut r = None;
+                if r.is_none() { r = c01::dispatch(c.as_str(), &req); }
+                if r.is_none() { r = c02::dispatch(c.as_str(), &req); }
+                if r.is_none() { r = c03::dispatch(c.as_str(), &req); }
+                if r.is_none() { r = c04::dispatch(c.as_str(), &req); }
+                if r.is_none() { r = c05::dispatch(c.as_str(), &req); }
+                if r.is_none() { r = c06::dispatch(c.as_str(), &req); }
+                if r.is_none() { r = c07::dispatch(c.as_str(), &req); }
+                if r.is_none() { r = c08::dispatch(c.as_str(), &req); }
+                if r.is_none() { r = c09::dispatch(c.as_str(), &req); }
+                if r.is_none() { r = c10::dispatch(c.as_str(), &req); }
+                if r.is_none() { r = c11::dispatch(c.as_str(), &req); }
+                if r.is_none() { r = c12::dispatch(c.as_str(), &req); }
+                if r.is_none() { r = c13::dispatch(c.as_str(), &req); }
+                if r.is_none() { r = c14::dispatch(c.as_str(), &req); }
+                if r.is_none() { r = c15::dispatch(c.as_str(), &req); }
+                if r.is_none() { r = c16::dispatch(c.as_str(), &req); }
+                if r.is_none() { r = c17::dispatch(c.as_str(), &req); }
+                if r.is_none() { r = c18::dispatch(c.as_str(), &req); }
+                r.unwrap_or_else(|| json!({"bad_cmd": c}))
+            }
         });
         let _ = writeln!(out, "{}", ans);
         let _ = out.flush();
